@@ -192,7 +192,7 @@ Proof.
   destruct (negb (init_checks (p_links p) l)); [discriminate|].
   destruct (mapM _ (l_src l)) as [srcs|]; [|discriminate].
   destruct (find_parent (p_acts p) (l_tgt l)) as [d|] eqn:FP; [|discriminate].
-  destruct (is_class_kind (d_kind d)); destruct (key_eqb (d_key d) (l_tgt l)) eqn:K; try discriminate.
+  destruct (key_eqb (d_key d) (l_tgt l)) eqn:K; [|destruct (is_class_kind (d_kind d)); [|discriminate]]; swap 1 2.
   - destruct (_ && _); [|discriminate]. inversion H; subst; clear H. simpl.
     intros d0 Hd. destruct (G d0 Hd) as [a [Ha Ta]]. exists a. split; [apply in_or_app; left; exact Ha|exact Ta].
   - inversion H; subst; clear H. simpl. intros d0 Hd.
